@@ -63,6 +63,18 @@ impl Validator {
         while let Some(key) = keys.pop() {
             #[cfg(feature = "verif-hooks")]
             crate::verif::point("link:key");
+            #[cfg(feature = "verif-hooks")]
+            if crate::verif::buggify("link", &key) {
+                warnings.push(
+                    LinkerError {
+                        pdu: Some(key.clone()),
+                        details: "verif-hooks: linking failed (injected)".into(),
+                        kind: LinkerErrorType::MissingDependency,
+                    }
+                    .into(),
+                );
+                continue;
+            }
             if matches![
                 self.tlds.get(&key),
                 Some(ToplevelDefinition::Object(ToplevelInformationDefinition {
